@@ -426,7 +426,12 @@ def _check(op, a, ti, mt, ctx):
                 out.append(fail("prop", "CDF_Gauss outside [0,1]", repr(v)))
     elif op == "c07.gauss_q":
         p, mu, s = [fl(t) for t in a]; q, c = fl(ti[0]), fl(ti[1])
-        if mt is not None and mt[0] == "ten":
+        qd0 = 2.0 * p - 1.0
+        # without a model answer (oracle-only search) the branch is derived from the request: |2p-1-1| < 1e-16 is the window at p = 1
+        ten = (mt[0] == "ten") if mt is not None else abs(qd0 - 1.0) < 1e-16
+        if not ten and (abs(qd0) >= 1.0 or not (s > 0)):
+            return out      # no quantile is defined for this request (p outside (0,1) / sigma <= 0): nothing to evaluate
+        if ten:
             w = mu + math.sqrt(2) * s * 10
             if abs(q - w) > 1e-12 * abs(w):
                 out.append(fail("prop", "Quantile_Gauss(1) is not mu + sqrt2*sigma*10", repr(q)))
